@@ -254,7 +254,8 @@ def rule_d2_d5(ck, prog, S):
     pgs, sts = X.must_stored(parse, reset_calls=("scpiParser_detectProgramMessageUnit",), callee_summaries=summ, prog=prog)
     have = sts.get(pgs.before(pc), frozenset())
     hdr_arg = C.call_args(fch[0])[1].strip_all_casts().get("path") or ""
-    hdr_tok = hdr_arg[:-len(".ptr")] if hdr_arg.endswith(".ptr") else None
+    # the header looked up: handed over as (token.ptr, token.len) or as the token itself (&token)
+    hdr_tok = hdr_arg[:-len(".ptr")] if hdr_arg.endswith(".ptr") else (hdr_arg[1:] if hdr_arg.startswith("&") else None)
     for field, src_field in (("context->param_list.cmd", None), ("context->param_list.cmd_raw.data", "ptr"),
                              ("context->param_list.cmd_raw.length", "len")):
         st = K.site(parse, "identity(%s)" % field, 0)
@@ -443,7 +444,8 @@ def rule_d3_d4(ck, prog, S):
     st = K.site(parse, "lookup-uses-composed-header", 0)
     if fch:
         fa = C.call_args(fch[0])
-        ok = fa[1].strip_all_casts().get("path") == cur + ".ptr" and fa[2].strip_all_casts().get("path") == cur + ".len"
+        ok = (len(fa) > 2 and fa[1].strip_all_casts().get("path") == cur + ".ptr" and fa[2].strip_all_casts().get("path") == cur + ".len") or \
+            fa[1].strip_all_casts().get("path") == "&" + cur           # the token itself instead of its (ptr, len)
         r = pg.reachable([pg.after(det[0])], blocked_edge=lambda e: e.kind == "elem" and e.node is comp[0])
         if not ok:
             ck.violated("C02-D3", st, K.loc(parse, fch[0]), "the table lookup does not use the composed header token")
